@@ -214,7 +214,14 @@ func (s *synth) selSet(t *TShape, items []synItem) []*selNode {
 		a     synAtom
 	}
 	var lates []late
-	for _, it := range items {
+	// wide selection sets (≥ 5 keys): every position's key is repeated with probability 1/3, and one
+	// position chosen at random always is — the 1st … last key, selected again after 0 … n other
+	// selections, directly or (after wrapping) through fragments
+	repeatDen, forced := 6, -1
+	if len(items) >= 5 {
+		repeatDen, forced = 3, s.r.Intn(len(items))
+	}
+	for pos, it := range items {
 		a := synAtom{idx: it.idx}
 		seen := -1 // object-typed: how many sub-fields have had their first occurrence after this atom (-1: all)
 		if isObj(it.idx) {
@@ -243,7 +250,7 @@ func (s *synth) selSet(t *TShape, items []synItem) []*selNode {
 				a.sub = allItems(ot, false)
 			}
 		}
-		if s.r.Chance(1, 6) {
+		if s.r.Chance(1, repeatDen) || pos == forced {
 			// a plain repeated occurrence later on
 			b := synAtom{idx: it.idx}
 			if isObj(it.idx) {
